@@ -108,7 +108,7 @@ func cmdUnit(args []string) int {
 				fmt.Println("  inlined:", res.Inlined)
 				fmt.Println("  specs used:", res.SpecsUsed)
 				fmt.Println("  kept auto invariants:", res.KeptAuto)
-				fmt.Println("  dropped auto invariants:", len(res.DroppedAuto))
+				fmt.Println("  dropped auto invariants:", len(res.DroppedAuto), res.DroppedAuto)
 			}
 			for _, n := range res.UnreachableReturns {
 				fmt.Println("  UNREACHABLE return point (vacuous postconditions):", n)
